@@ -781,6 +781,19 @@ func HandOps(f *Fed) []Case {
 		{Q: "query ($a: String) { when(at: [$a]) }", Vars: map[string]interface{}{"a": "x"}, Dec: "hand:var-in-custom-scalar-literal"},
 		{Q: "query ($a: String) { when(at: {k: $a}) }", Vars: map[string]interface{}{"a": "x"}, Dec: "hand:var-in-custom-scalar-literal"},
 		{Q: "query ($a: String, $b: Int) { when(at: [{k: $a}, [$b, 1]]) }", Vars: map[string]interface{}{"a": "x", "b": 3}, Dec: "hand:var-in-custom-scalar-literal"},
+		// untyped inline fragments (with and without a directive) directly below abstract-typed fields
+		{Q: "{ us { ... @skip(if: true) { __typename } } }", Vars: map[string]interface{}{}, Dec: "hand:untyped-fragment-in-abstract-field"},
+		{Q: "{ us { ... { __typename } } }", Vars: map[string]interface{}{}, Dec: "hand:untyped-fragment-in-abstract-field"},
+		{Q: "query ($v: Boolean!) { us { ... @include(if: $v) { __typename } } }", Vars: map[string]interface{}{"v": true}, Dec: "hand:untyped-fragment-in-abstract-field"},
+		{Q: "query ($v: Boolean!) { us { ... @include(if: $v) { __typename } } }", Vars: map[string]interface{}{"v": false}, Dec: "hand:untyped-fragment-in-abstract-field"},
+		{Q: "{ things { ... @skip(if: false) { a } } }", Vars: map[string]interface{}{}, Dec: "hand:untyped-fragment-in-abstract-field"},
+		{Q: "{ named { ... @include(if: true) { name } } }", Vars: map[string]interface{}{}, Dec: "hand:untyped-fragment-in-abstract-field"},
+		// a fragment on the abstract type of its field next to the client's own __typename, under an alias or reached through a named fragment only
+		{Q: "{ us { t: __typename ... on U { ... on N4 { label } } } }", Vars: map[string]interface{}{}, Dec: "hand:abstract-fragment-next-to-typename"},
+		{Q: "query { us { ...TN ... on U { ... on N4 { label } } } } fragment TN on U { __typename }", Vars: map[string]interface{}{}, Dec: "hand:abstract-fragment-next-to-typename"},
+		{Q: "{ us { __typename ... on U { ... on N4 { label } } } }", Vars: map[string]interface{}{}, Dec: "hand:abstract-fragment-next-to-typename"},
+		{Q: "{ things { t: __typename ... on I { a } } }", Vars: map[string]interface{}{}, Dec: "hand:abstract-fragment-next-to-typename"},
+		{Q: "query { things { ...TN ... on I { a } } } fragment TN on I { __typename }", Vars: map[string]interface{}{}, Dec: "hand:abstract-fragment-next-to-typename"},
 		// a literal that reads like the name of a variable used elsewhere
 		{Q: "query ($name: Int) { echo(x: $name) n1ByName: n1s { calc(x: 1) } }", Vars: map[string]interface{}{"name": 5}, Dec: "hand:literal-like-variable"},
 	}
